@@ -71,6 +71,13 @@ def run(tier, seed):
         for fam, ftext in semantic_faults(text, rng):
             jobs.append(("fault:" + fam, ftext, (), "M%d" % i))
 
+    # a fixed module of constructs the random generator does not produce (constrained REAL, a SET wider than one byte of
+    # its mandatory-member bitmap, ...) under every single option and two combinations; plus hand-written faults
+    for os_ in [()] + [(o,) for o in OPTIONS] + [("-fwide-types", "-fcompound-names"), ("-fwide-types", "-no-gen-OER")]:
+        jobs.append(("valid", FIXED_MODULE, os_, "FX"))
+    for fam, ftext in FIXED_FAULTS:
+        jobs.append(("fault:" + fam, ftext, (), "FXF"))
+
     def one(job):
         kind, text, opts, name = job
         h = hashlib.sha1((text + " ".join(opts)).encode("utf-8", "surrogateescape")).hexdigest()[:12]
@@ -189,6 +196,64 @@ def run(tier, seed):
         if len(chk.samples) < 5:
             chk.sample({"kind": kind, "options": opts, "module_head": text[:300], "asn1c_rc": rc})
     return chk.finish()
+
+
+FIXED_MODULE = """FX DEFINITIONS EXPLICIT TAGS ::= BEGIN
+
+Ratio ::= REAL (-1..1)
+
+Lvl ::= SEQUENCE {
+    level REAL (0..100),
+    r Ratio OPTIONAL,
+    big INTEGER (0..18446744073709551615) OPTIONAL
+}
+
+Wide ::= SET {
+    a0 [0] INTEGER OPTIONAL,
+    a1 [1] BOOLEAN,
+    a2 [2] INTEGER,
+    a3 [3] NULL OPTIONAL,
+    a4 [4] BOOLEAN,
+    a5 [5] INTEGER OPTIONAL,
+    a6 [6] IA5String,
+    a7 [7] INTEGER,
+    a8 [8] BOOLEAN OPTIONAL,
+    a9 [9] REAL,
+    a10 [10] INTEGER DEFAULT 7,
+    a11 [11] OCTET STRING,
+    a12 [12] NULL OPTIONAL,
+    a13 [13] BOOLEAN,
+    a14 [14] Ratio OPTIONAL,
+    a15 [15] INTEGER,
+    a16 [16] BOOLEAN OPTIONAL,
+    a17 [17] BIT STRING
+}
+
+Rec ::= SEQUENCE {
+    v INTEGER,
+    next Rec OPTIONAL,
+    alt CHOICE { leaf NULL, more Rec } OPTIONAL
+}
+
+Bits ::= BIT STRING { first(0), last(31) } (SIZE(32))
+
+Deep ::= SEQUENCE OF SET OF CHOICE { da [0] Ratio, db [1] SEQUENCE { x Bits } }
+
+END
+"""
+
+FIXED_FAULTS = [
+    ("undefined-in-SET", "F1 DEFINITIONS EXPLICIT TAGS ::= BEGIN T ::= SET { a NoSuch1, b INTEGER } END\n"),
+    ("undefined-in-CHOICE", "F2 DEFINITIONS IMPLICIT TAGS ::= BEGIN T ::= CHOICE { a NoSuch2, b BOOLEAN, c INTEGER } END\n"),
+    ("undefined-after-OPTIONAL", "F3 DEFINITIONS EXPLICIT TAGS ::= BEGIN T ::= SEQUENCE { a INTEGER OPTIONAL, b NoSuch3, c BOOLEAN } END\n"),
+    ("undefined-OPTIONAL", "F4 DEFINITIONS ::= BEGIN T ::= SEQUENCE { a NoSuch4 OPTIONAL, b BOOLEAN DEFAULT TRUE, c INTEGER } END\n"),
+    ("undefined-in-OF", "F5 DEFINITIONS ::= BEGIN T ::= SEQUENCE OF NoSuch5 END\n"),
+    ("undefined-components-of", "F6 DEFINITIONS ::= BEGIN T ::= SEQUENCE { a INTEGER, COMPONENTS OF NoSuch6 } END\n"),
+    ("undefined-value-in-constraint", "F7 DEFINITIONS ::= BEGIN T ::= INTEGER (1..nosuch7) END\n"),
+    ("undefined-class", "F8 DEFINITIONS ::= BEGIN T ::= SEQUENCE { a NOSUCH.&id, b BOOLEAN } END\n"),
+    ("inverted-size", "F9 DEFINITIONS ::= BEGIN T ::= IA5String (SIZE(5..2)) END\n"),
+    ("inverted-alphabet", "F10 DEFINITIONS ::= BEGIN T ::= IA5String (FROM(\"z\"..\"a\")) END\n"),
+]
 
 
 def semantic_faults(text, rng):
